@@ -13,6 +13,7 @@ mod master;
 mod c04;
 mod c01;
 mod c18;
+mod c03;
 mod lin;
 
 use registry::Tier;
